@@ -454,6 +454,56 @@ pub fn run_mal(p: &Profile, seed: u64, run: u64, ov: &Override, want_case: bool)
                     }
                 }
             }
+            if rng.chance(1, 4) {
+                // a well-formed version-3 header with a chain of extensions,
+                // cut a few bytes before / at / after the end of one of its
+                // parts (the parser's bounds checks live there)
+                let hl = *rng.pick(&[104usize, 112, 112, 120]);
+                let mut b = vec![0u8; hl];
+                put32(&mut b, 0, qspec::MAGIC);
+                put32(&mut b, 4, 3);
+                let cb = rng.range(9, 21) as u32;
+                put32(&mut b, 20, cb);
+                put64(&mut b, 24, 1 << 30);
+                put32(&mut b, 36, 4);
+                put64(&mut b, 40, 3 << cb);
+                put64(&mut b, 48, 1 << cb);
+                put32(&mut b, 56, 1);
+                put32(&mut b, 96, 4);
+                put32(&mut b, 100, hl as u32);
+                let mut marks = vec![hl];
+                for _ in 0..rng.range(1, 3) {
+                    let ty = *rng.pick(&[0xE279_2ACAu32, 0x6803_f857, 0x2385_2875, 0x0537_be77, 0x1234_5678]);
+                    let dl = match rng.below(4) {
+                        0 => rng.below(16) as usize,
+                        1 => rng.range(16, 200) as usize,
+                        2 => rng.range(3800, 4200) as usize,
+                        _ => rng.below(5000) as usize,
+                    };
+                    let mut e = vec![0u8; 8];
+                    put32(&mut e, 0, ty);
+                    put32(&mut e, 4, dl as u32);
+                    b.extend_from_slice(&e);
+                    marks.push(b.len());
+                    for _ in 0..dl {
+                        b.push(rng.next() as u8);
+                    }
+                    marks.push(b.len());
+                    while b.len() % 8 != 0 {
+                        b.push(0);
+                    }
+                    marks.push(b.len());
+                }
+                if rng.chance(3, 4) {
+                    b.extend_from_slice(&[0u8; 8]);
+                    marks.push(b.len());
+                }
+                let at = *rng.pick(&marks) as i64 + rng.range(0, 18) as i64 - 9;
+                let cut = at.clamp(0, b.len() as i64 + 9) as usize;
+                b.resize(cut.max(b.len().min(cut)), 0xa5);
+                b.truncate(cut);
+                buf = b;
+            }
             if let Some(g) = given {
                 buf = g;
             }
